@@ -58,6 +58,16 @@ def selfcheck():
 _CACHE = {}
 
 
+def _plain(x):
+    """Return values with NumPy scalars turned into the Python values they equal (a label read from an array span is the
+    same label)."""
+    if isinstance(x, np.generic):
+        return x.item()
+    if isinstance(x, (list, tuple)):
+        return type(x)(_plain(v) for v in x)
+    return x
+
+
 def compile_program(prog, wrap_width=None, build_opts=None):
     """build_opts: {'lags_plus': d, 'leads_plus': d, 'min_lags': m, 'min_leads': m} - the same lag/lead settings are given
     to both builders; explicit lengths are only ever *raised* above what the script needs (a shorter explicit length makes
@@ -209,8 +219,19 @@ def check_case(case):
         for nm, val in (run.get('const') or {}).items():
             if nm in data:
                 data[nm] = np.full(n, float(val))
-        p = Py(range(n), **{k: v.copy() for k, v in data.items()})
-        f = F(range(n), **{k: v.copy() for k, v in data.items()})
+        # (the span may be held in a NumPy array or a pandas Index - the labels are the positions in every case)
+        sk = run.get('span_kind')
+        if sk == 'np':
+            span_p, span_f = np.arange(n), np.arange(n)
+        elif sk == 'pd':
+            import pandas as pd
+            span_p, span_f = pd.Index(list(range(n))), pd.Index(list(range(n)))
+        else:
+            span_p, span_f = range(n), range(n)
+        if sk:
+            res.tag('span:' + sk)
+        p = Py(span_p, **{k: v.copy() for k, v in data.items()})
+        f = F(span_f, **{k: v.copy() for k, v in data.items()})
         entry = run['entry']
         T = L + run.get('tpos', 0) % max(1, n - L - K)
         if entry != 'evaluate':      # (one evaluation pass is specified for feasible periods only)
@@ -306,7 +327,7 @@ def check_case(case):
                 d = np.abs(after - before)
                 if np.any(np.abs(d - tol_opt) <= 1e-6 * tol_opt):
                     near_boundary = True
-        if oa[1] is None and repr(oa[0]) != repr(ob[0]) and not near_boundary:
+        if oa[1] is None and repr(_plain(oa[0])) != repr(_plain(ob[0])) and not near_boundary:
             res.fail(f'{cls}/return-value', f'{detail}: Python returned {oa[0]!r}, Fortran {ob[0]!r}')
         # a non-convergent iteration may be chaotic: one-ulp differences between libm and NumPy are amplified without
         # bound, so values are compared after iterative solves only where the Python twin converged (or arithmetic is exact)
@@ -411,6 +432,7 @@ def runs_strategy():
         'presolve': st.sampled_from([False, False, True]), 'infeasible': st.sampled_from([None, None, None, 'front', 'back']),
         'recheck': st.sampled_from([None, None, None, 0, 1]), 'oob': st.sampled_from([None, None, None, None, 0, 1]),
         'rep': st.one_of(st.just([]), st.lists(st.integers(0, 11), min_size=1, max_size=4)),
+        'span_kind': st.sampled_from([None, None, None, 'np', 'pd']),
         'bases': st.lists(st.lists(st.sampled_from([1.0, 2.0, 0.5, 4.0, 3.0, 0.25, 1.5]), min_size=2, max_size=4), min_size=1, max_size=3),
     })
     return st.lists(run, min_size=3, max_size=6)
@@ -521,6 +543,11 @@ def fixed_family():
     progs.append(([['assign', V('Y'), ['bin', '*', ['num', '0.5'], V('Y')]]],
                   [{'entry': 'solve_t', 'tpos': 0, 'opts': {'max_iter': 0, 'failures': f}} for f in ('raise', 'ignore')]
                   + [{'entry': 'solve', 'opts': {'max_iter': 0, 'failures': 'ignore'}}]))
+    # the span held in a NumPy array / a pandas Index
+    progs.append(([['assign', V('Y'), ['bin', '+', ['bin', '*', ['num', '0.5'], V('Y', -1)], V('X')]]],
+                  [{'entry': e, 'tpos': 0, 'span_kind': k, 'opts': {'max_iter': 5, 'failures': 'ignore'}}
+                   for k in ('np', 'pd') for e in ('solve', 'solve_t', 'evaluate')]
+                  + [{'entry': 'solve', 'span_kind': k, 'extra': 0} for k in ('np', 'pd')]))
     # names that end in (or contain) other names of the same equation: K / dK, W / RW, X / X_1 / aX (textual rewriting
     # of NAME[t+k] must not reach into a longer identifier)
     runs = [{'entry': 'evaluate', 'tpos': 0}, {'entry': 'solve', 'opts': {'max_iter': 5, 'failures': 'ignore'}}]
